@@ -41,6 +41,9 @@ def classify(op, exc, diff, flavour):
     return f'C09/{o}-not-atomic'
 
 
+VOC = [None]
+
+
 def whole(imp):
     return canon.store_snapshot(imp)[0]
 
@@ -62,6 +65,13 @@ def attempt(ctx, imp, topo, op, origin, flavour, store, hist=None):
         gid = topo.graph_model.graph_id
         ctx.seen([op, len(before.get(gid, {'nodes': {}})['nodes']), origin], bool(before))
         if before != after:
+            # a model that already breaks the naming rule (reachable only through the known finding
+            # C07/rename-to-existing-name) makes look-ups by name ambiguous; what a call does then is not judged
+            from vlib import toporules
+            dup = [x for x in toporules.check_rules(topogen.TM(before.get(gid)), VOC[0]) if x[0].startswith('duplicate-name')] if before.get(gid) else []
+            if dup:
+                ctx.count('not-judged:model-already-has-duplicate-names')
+                return 'raise'
             d = []
             for g in sorted(set(before) | set(after)):
                 d += [f'[{g[:8]}] {x}' for x in canon.diff(before.get(g), after.get(g))]
@@ -311,6 +321,8 @@ def run_targeted(ctx, imp, store, flavour, tag):
 
 
 def run(ctx):
+    from vlib import toporules
+    VOC[0] = toporules.load_vocab()[0]
     imps = rawgraph.importers()
     n = ctx.pick(14, 300)
     for i in range(n):
@@ -340,6 +352,8 @@ def run(ctx):
 
 
 def replay(ctx, case):
+    from vlib import toporules
+    VOC[0] = toporules.load_vocab()[0]
     imps = rawgraph.importers()
     w = case['witness']
     imp = imps[w['store']][0]
